@@ -58,6 +58,7 @@ CONSTANTS PKeys,      \* parent primary keys (positive integers)
           MaxOps,     \* exhaustive bound on the number of executed statements
           InitMode,   \* "empty": empty tables; "base": any valid root, all branches on it; "triples": any valid (base, main, b1)
           AsCode,     \* TRUE: the named deviation behaves as the code does
+          LeakForce,  \* TRUE: dolt_commit --force leaves @@dolt_force_transaction_commit = 1 behind (the defect repaired by dd4a340)
           Sim,        \* TRUE: statement parameters are single random draws (simulation)
           D, RecordHist
 
@@ -115,8 +116,11 @@ PConflicts(L, R, B) == {k \in PKeys : POp(L.rows[k], R.rows[k], B.rows[k]) = "co
 \* uniqValidator as written: state = our unique index (sec), our rows (clus), violating keys (v); keys ascending
 UniqStep(st, k, L, R, B) ==
     LET l == L.rows[k]  r == R.rows[k]  b == B.rows[k]  op == POp(l, r, b) IN
-    IF op = "right" /\ r = NoP          \* DiffOpRightDelete: removeRow
-    THEN [st EXCEPT !.sec = @ \ {<<b, k>>}, !.clus[k] = NoP]
+    IF op = "right" /\ r = NoP          \* DiffOpRightDelete: removeRow, then clearArtifact: the row's own record and the records
+    THEN LET sec2 == st.sec \ {<<b, k>>}   \* of the rows that collided with its value are deleted again
+             others == IF b = 0 THEN {} ELSE {k2 \in PKeys \ {k} : <<b, k2>> \in sec2 /\ st.clus[k2] # NoP}
+         IN [sec |-> sec2, clus |-> [st.clus EXCEPT ![k] = NoP],
+             v |-> IF k \in st.v THEN st.v \ ({k} \cup others) ELSE st.v]
     ELSE IF (op = "right" /\ r # NoP) \/ (op = "left" /\ l # NoP)    \* Right/Left Add/Modify
     THEN LET val == IF op = "right" THEN r ELSE l
              coll == IF val = 0 THEN {} ELSE {k2 \in PKeys \ {k} : <<val, k2>> \in st.sec /\ st.clus[k2] # NoP}
@@ -388,12 +392,13 @@ AfterMergeCommit(b, root) ==
     /\ store' = [store EXCEPT ![b] = [head |-> root, work |-> root, mrg |-> FALSE, mth |-> EmptyRoot, ahead |-> TRUE], ![b2].ahead = FALSE]
     /\ base' = store[b].mth
 \* CALL dolt_commit('-A', '-m', ..) / with '--force'
-\* NAMED DEVIATION "commit-force-leaks-session-flag" (dprocedures/dolt_commit.go:170-175): dolt_commit('--force') SETS the session
-\* variable @@dolt_force_transaction_commit = 1 and never resets it, whether the commit succeeds or not: every later transaction of
-\* that session commits constraint violations (and conflicts) although the user asked to force ONE commit.
+\* REPAIRED DEVIATION "commit-force-leaks-session-flag" (dprocedures/dolt_commit.go:170-175, fixed by dd4a340): dolt_commit('--force') SET
+\* the session variable @@dolt_force_transaction_commit = 1 and never reset it, whether the commit succeeded or not: every later
+\* transaction of that session committed constraint violations (and conflicts) although the user asked to force ONE commit.
+\* Constant LeakForce = TRUE re-creates that behaviour (used to show that the check sees a revert of the fix); all configs set FALSE.
 DoltCommit(s, forced) ==
     LET rec == sess[s]  b == rec.br  st == store[b]  name == IF forced THEN "CommitForce" ELSE "DoltCommit"
-        leak == forced /\ ~rec.force
+        leak == LeakForce /\ forced /\ ~rec.force
         args == [dev |-> IF leak /\ AsCode THEN "commit-force-leaks-session-flag" ELSE "", ideal |-> NoIdeal] IN
     /\ On(name) /\ ~rec.open
     /\ sess' = IF leak /\ AsCode THEN [sess EXCEPT ![s].force = TRUE] ELSE sess
